@@ -98,6 +98,14 @@ def corr_cases(strength, rng):
     # non-manifold fan and random soups (tables with 3 elements on an edge, isolated pieces)
     fan = G.fan()
     add_group("fan/all-subcomplexes", fan, subsets(fan.number_of_elements), allk)
+    add_group("fan/segments", fan, [(None, [0]), (None, [1, 2]), (None, [0, 1]), (None, [0, 2]), (None, [0, 1, 2])], allk)
+    # junction edges with three triangles on multi-domain grids: every segment subset, seeded support subsets
+    for name, grid in (("two-tets-glued", G.two_tets_glued()), ("t-junction", G.t_junction())):
+        doms = sorted(set(int(x) for x in grid.domain_indices))
+        segsets = [(None, list(c)) for r in range(1, len(doms) + 1) for c in itertools.combinations(doms, r)]
+        subs = subsets(grid.number_of_elements)
+        pick = subs if thorough else [subs[i] for i in sorted(rng.choice(len(subs), 16, replace=False))]
+        add_group(name + "/segments-and-subcomplexes", grid, segsets + pick, ["P1", "RWG", "SNC"] if not thorough else allk)
     for k in range(6 if thorough else 2):
         soup = G.random_soup(rng)
         n = soup.number_of_elements
@@ -149,24 +157,143 @@ def edge_local_points(t, e, edge, params):
     return np.array([pa + s * (pb - pa) for s in params]).T
 
 
+PARAMS = [0.25, 0.5, 0.8125]
+
+
+class Checker:
+    """The property predicates of C09 evaluated on ONE space of the implementation: global2local inverse, dof count
+    against the documented rule (manifold grids), one-sided traces across every edge shared by exactly two elements of
+    the final support (P1 values, RWG normal, SNC tangential components)."""
+
+    def __init__(self, rng):
+        self.rng = rng
+        self.failures, self.per_sig, self.evals = [], {}, 0
+        self.worst = {"p1_jump": 0.0, "rwg_normal_jump": 0.0, "snc_tangential_jump": 0.0, "pou": 0.0}
+
+    def fail(self, sig, what, data):
+        # at most three examples per signature, so that a frequent (known) failure cannot crowd out a new one
+        self.per_sig[sig] = self.per_sig.get(sig, 0) + 1
+        if self.per_sig[sig] <= 3:
+            self.failures.append({"signature": sig, "what": what, "data": data})
+
+    def check(self, grid, t, gname, kind, se=None, segs=None, sw=None, incl=None, trunc=None, with_tables=False):
+        n = grid.number_of_elements
+        sp = G.make_space(grid, kind, se=se, segs=segs, swapped=sw, incl=incl, trunc=trunc)
+        self.evals += 1
+        desc = {"grid": gname, "kind": kind, "support_elements": se, "segments": segs, "include_boundary_dofs": incl,
+                "truncate_at_segment_edge": trunc, "swapped_normals": sw}
+        if with_tables:   # enough to rebuild the grid: a self-contained replay
+            desc["grid_arrays"] = {"vertices": [[float(x) for x in grid.vertices[:, v]] for v in range(grid.number_of_vertices)],
+                                   "elements": t["elems"], "domain_indices": t["dom"]}
+        if se is not None:
+            support0 = [i in se for i in range(n)]
+        elif segs is not None:
+            support0 = [t["dom"][i] in segs for i in range(n)]
+        else:
+            support0 = [True] * n
+        manifold = all(len(nb) <= 2 for nb in t["enbrs"])
+        # -- global2local must invert local2global exactly on the non-zero multipliers
+        want = {}
+        for e in range(n):
+            for i in range(sp.local2global.shape[1]):
+                if sp.local_multipliers[e, i] != 0:
+                    want.setdefault(int(sp.local2global[e, i]), []).append((e, i))
+        got = {d: [(int(a), int(b)) for a, b in row] for d, row in enumerate(sp.global2local) if len(row)}
+        if got != want:
+            self.fail("C09:global2local-not-inverse:%s" % kind,
+                      "global2local is not the inverse of local2global on the non-zero multipliers",
+                      dict(desc, global2local={str(k): v for k, v in list(got.items())[:6]},
+                           expected={str(k): v for k, v in list(want.items())[:6]}))
+        if kind in ("DP0", "DP1"):
+            nsel = sum(support0) * (1 if kind == "DP0" else 3)
+            if sp.global_dof_count != max(nsel, 1):
+                self.fail("C09:dof-count:%s" % kind, "global_dof_count %d != %d" % (sp.global_dof_count, nsel), desc)
+            return sp
+        # -- dof count against the documented rule (on non-manifold grids the RWG builder's treatment of edges with three
+        #    supported elements depends on the processing order; only the phantom dof is reported there)
+        nsel = len(selected_vertices_spec(t, support0, incl, trunc)) if kind == "P1" else \
+            len(selected_edges_spec(t, support0, incl))
+        if sp.global_dof_count != nsel and (manifold or kind == "P1" or not np.any(sp.support)):
+            if sp.global_dof_count == 1 and not np.any(sp.support):
+                self.fail("C09:global_dof_count==1-on-empty-selection",
+                          "function_space(%s) whose options select no vertex/edge reports global_dof_count == 1 "
+                          "(phantom dof 0 carried by no element) instead of 0" % kind,
+                          dict(desc, global_dof_count=int(sp.global_dof_count), selected_entities=0))
+            else:
+                self.fail("C09:dof-count:%s" % kind, "global_dof_count %d != %d entities selected by the options"
+                          % (sp.global_dof_count, nsel), dict(desc, selected=nsel))
+        if not np.any(sp.support):
+            return sp
+        # -- one-sided traces of a random function on every edge shared by exactly two elements of the final support
+        coeffs = self.rng.integers(-4, 5, size=sp.global_dof_count).astype(float) + 0.5
+        gf = bempp_cl.api.GridFunction(sp, coefficients=coeffs)
+        supp = sp.support
+        for edge, nb in enumerate(t["enbrs"]):
+            sn = [e for e in nb if supp[e]]
+            if len(sn) != 2:
+                continue
+            a, b = t["edges"][edge]
+            # with truncation the function is cut at the edge of the ORIGINAL selection; continuity is only
+            # claimed across edges interior to it (both neighbours selected)
+            if not (support0[sn[0]] and support0[sn[1]]):
+                if trunc or not incl:
+                    continue
+            # direction in which each element traverses the edge (a -> b: +1)
+            dirs = [1 if (t["elems"][e].index(b) - t["elems"][e].index(a)) % 3 == 1 else -1 for e in sn]
+            vals = [gf.evaluate(e, edge_local_points(t, e, edge, PARAMS)) for e in sn]
+            self.evals += 1
+            va, vb = grid.vertices[:, a], grid.vertices[:, b]
+            tang = (vb - va) / np.linalg.norm(vb - va)
+            where = dict(desc, edge=edge, edge_vertices=[a, b], elements=sn)
+            if kind == "P1":
+                j = float(np.max(np.abs(vals[0] - vals[1])))
+                self.worst["p1_jump"] = max(self.worst["p1_jump"], j)
+                if j > 1e-12:
+                    self.fail("C09:p1-jump", "P1 function jumps by %.3e across an interior edge" % j, where)
+            elif kind == "RWG":
+                # component along the OUTWARD in-plane edge normal of each side (independent of the orientation of
+                # the triangles): the two one-sided normal components must cancel
+                js = []
+                for e, v in zip(sn, vals):
+                    conormal = np.cross(tang, grid.normals[e])
+                    if np.dot(conormal, (va + vb) / 2 - grid.centroids[e]) < 0:
+                        conormal = -conormal
+                    js.append(conormal @ v)
+                j = float(np.max(np.abs(js[0] + js[1])))
+                self.worst["rwg_normal_jump"] = max(self.worst["rwg_normal_jump"], j)
+                if j > 1e-11:
+                    self.fail("C09:rwg-normal-jump", "RWG normal component jumps by %.3e across an interior edge "
+                              "(one-sided outward components %s)" % (j, [round(float(x), 6) for x in js[0][:1]] +
+                                                                      [round(float(x), 6) for x in js[1][:1]]), where)
+            else:
+                if dirs[0] == dirs[1]:
+                    continue     # the two sheets are not consistently oriented: n x f is not claimed to be continuous
+                js = [tang @ v for v in vals]
+                j = float(np.max(np.abs(js[0] - js[1])))
+                self.worst["snc_tangential_jump"] = max(self.worst["snc_tangential_jump"], j)
+                if j > 1e-11:
+                    nms = [int(sp.normal_multipliers[e]) for e in sn]
+                    if nms[0] != nms[1]:
+                        self.fail("C09:snc-tangential-jump:swapped-normals-interface",
+                                  "SNC function jumps tangentially (%.3e) across an interior edge between an "
+                                  "element with swapped normal and one without" % j, dict(where, normal_multipliers=nms))
+                    else:
+                        self.fail("C09:snc-tangential-jump",
+                                  "SNC tangential component jumps by %.3e across an interior edge" % j, where)
+        return sp
+
+
+def nonmanifold_grids():
+    return [("fan", G.fan()), ("two-tets-glued", G.two_tets_glued()), ("t-junction", G.t_junction())]
+
+
 def search(strength, rng, replay=None):
     thorough = strength == "thorough"
-    failures, evals = [], 0
-    worst = {"p1_jump": 0.0, "rwg_normal_jump": 0.0, "snc_tangential_jump": 0.0, "pou": 0.0}
+    ck = Checker(rng)
     grids = [("octahedron", G.octahedron([0, 0, 1, 1, 2, 2, 5, 5])), ("screen2x2", G.screen(2, 2, [7, 7, 7, 9, 9, 5, 5, 5])),
              ("cube12", G.cube12([1, 1, 2, 2, 3, 3, 4, 4, 6, 6, 8, 8])), ("torus3x3", G.torus())]
     if thorough:
         grids += [("screen3x2", G.screen(3, 2)), ("two-components", G.two_components()), ("tetrahedron", G.tetrahedron())]
-    params = [0.25, 0.5, 0.8125]
-
-    per_sig = {}
-
-    def fail(sig, what, data):
-        # at most three examples per signature, so that a frequent (known) failure cannot crowd out a new one
-        per_sig[sig] = per_sig.get(sig, 0) + 1
-        if per_sig[sig] <= 3:
-            failures.append({"signature": sig, "what": what, "data": data})
-
     for gname, grid in grids:
         t = G.tables(grid)
         n = grid.number_of_elements
@@ -178,103 +305,15 @@ def search(strength, rng, replay=None):
             for _ in range(6 if thorough else 2):
                 k = int(rng.integers(1, n))
                 sels.append(sorted(int(x) for x in rng.choice(n, k, replace=False)))
+        doms = sorted(set(t["dom"]))
         for se in sels:
-            support0 = [True] * n if se is None else [i in se for i in range(n)]
-            doms = sorted(set(t["dom"]))
             for kind, sw in (("P1", None), ("RWG", None), ("SNC", None), ("SNC", doms[:1]), ("RWG", doms[:1]), ("SNC", doms)):
                 if sw is not None and len(doms) < 2:
                     continue
                 for incl, trunc in OPTS4:
                     if sw is not None and (incl, trunc) not in ((False, True), (True, False)):
                         continue
-                    sp = G.make_space(grid, kind, se=se, swapped=sw, incl=incl, trunc=trunc)
-                    evals += 1
-                    desc = {"grid": gname, "kind": kind, "support_elements": se, "include_boundary_dofs": incl,
-                            "truncate_at_segment_edge": trunc, "swapped_normals": sw}
-                    # -- global2local must invert local2global exactly on the non-zero multipliers
-                    want = {}
-                    for e in range(n):
-                        for i in range(sp.local2global.shape[1]):
-                            if sp.local_multipliers[e, i] != 0:
-                                want.setdefault(int(sp.local2global[e, i]), []).append((e, i))
-                    got = {d: [(int(a), int(b)) for a, b in row] for d, row in enumerate(sp.global2local) if len(row)}
-                    if got != want:
-                        fail("C09:global2local-not-inverse:%s" % kind,
-                             "global2local is not the inverse of local2global on the non-zero multipliers",
-                             dict(desc, global2local={str(k): v for k, v in list(got.items())[:6]},
-                                  expected={str(k): v for k, v in list(want.items())[:6]}))
-                    # -- dof count against the documented rule
-                    nsel = len(selected_vertices_spec(t, support0, incl, trunc)) if kind == "P1" else \
-                        len(selected_edges_spec(t, support0, incl))
-                    if sp.global_dof_count != nsel:
-                        if nsel == 0 and sp.global_dof_count == 1:
-                            fail("C09:global_dof_count==1-on-empty-selection",
-                                 "function_space(%s) whose options select no vertex/edge reports global_dof_count == 1 "
-                                 "(phantom dof 0 carried by no element) instead of 0" % kind,
-                                 dict(desc, global_dof_count=int(sp.global_dof_count), selected_entities=0))
-                        else:
-                            fail("C09:dof-count:%s" % kind, "global_dof_count %d != %d entities selected by the options"
-                                 % (sp.global_dof_count, nsel), dict(desc, selected=nsel))
-                    if nsel == 0:
-                        continue
-                    # -- one-sided traces of a random function on every edge shared by two support elements
-                    coeffs = rng.integers(-4, 5, size=sp.global_dof_count).astype(float) + 0.5
-                    gf = bempp_cl.api.GridFunction(sp, coefficients=coeffs)
-                    supp = sp.support
-                    for edge, nb in enumerate(t["enbrs"]):
-                        sn = [e for e in nb if supp[e]]
-                        if len(nb) != 2 or len(sn) != 2:
-                            continue
-                        a, b = t["edges"][edge]
-                        # with truncation the function is cut at the edge of the ORIGINAL selection; continuity is only
-                        # claimed across edges interior to it (both neighbours selected)
-                        if not (support0[sn[0]] and support0[sn[1]]):
-                            if trunc or not incl:
-                                continue
-                        vals = []
-                        for e in sn:
-                            lp = edge_local_points(t, e, edge, params)
-                            vals.append(gf.evaluate(e, lp))
-                        evals += 1
-                        va = grid.vertices[:, a]
-                        vb = grid.vertices[:, b]
-                        tang = (vb - va) / np.linalg.norm(vb - va)
-                        if kind == "P1":
-                            j = float(np.max(np.abs(vals[0] - vals[1])))
-                            worst["p1_jump"] = max(worst["p1_jump"], j)
-                            if j > 1e-12:
-                                fail("C09:p1-jump", "P1 function jumps by %.3e across an interior edge" % j,
-                                     dict(desc, edge=edge, elements=sn))
-                        elif kind == "RWG":
-                            # component along the in-plane edge normal of each side; the two co-normals are opposite
-                            js = []
-                            for e, v in zip(sn, vals):
-                                nrm = grid.normals[e]
-                                conormal = np.cross(tang, nrm)
-                                c = grid.centroids[e]
-                                if np.dot(conormal, (va + vb) / 2 - c) < 0:
-                                    conormal = -conormal
-                                js.append(conormal @ v)
-                            j = float(np.max(np.abs(js[0] + js[1])))
-                            worst["rwg_normal_jump"] = max(worst["rwg_normal_jump"], j)
-                            if j > 1e-11:
-                                fail("C09:rwg-normal-jump", "RWG normal component jumps by %.3e across an interior edge" % j,
-                                     dict(desc, edge=edge, elements=sn))
-                        else:
-                            js = [tang @ v for v in vals]
-                            j = float(np.max(np.abs(js[0] - js[1])))
-                            worst["snc_tangential_jump"] = max(worst["snc_tangential_jump"], j)
-                            if j > 1e-11:
-                                nms = [int(sp.normal_multipliers[e]) for e in sn]
-                                if nms[0] != nms[1]:
-                                    fail("C09:snc-tangential-jump:swapped-normals-interface",
-                                         "SNC function jumps tangentially (%.3e) across an interior edge between an "
-                                         "element with swapped normal and one without" % j,
-                                         dict(desc, edge=edge, elements=sn, normal_multipliers=nms))
-                                else:
-                                    fail("C09:snc-tangential-jump",
-                                         "SNC tangential component jumps by %.3e across an interior edge" % j,
-                                         dict(desc, edge=edge, elements=sn))
+                    ck.check(grid, t, gname, kind, se=se, sw=sw, incl=incl, trunc=trunc)
         # -- partition of unity on the whole grid (closed grid, or boundary dofs included)
         pts = np.array([[0.2, 0.6, 1.0 / 3], [0.3, 0.1, 1.0 / 3]])
         for kind, kw in (("DP0", {}), ("DP1", {}), ("P1", {"incl": True, "trunc": True})):
@@ -282,20 +321,56 @@ def search(strength, rng, replay=None):
             gf1 = bempp_cl.api.GridFunction(sp, coefficients=np.ones(sp.global_dof_count))
             for e in range(n):
                 v = gf1.evaluate(e, pts)
-                evals += 1
+                ck.evals += 1
                 d = float(np.max(np.abs(v - 1.0)))
-                worst["pou"] = max(worst["pou"], d)
+                ck.worst["pou"] = max(ck.worst["pou"], d)
                 if d > 1e-13:
-                    fail("C09:partition-of-unity:%s" % kind, "basis of %s sums to 1%+.3e" % (kind, d),
-                         {"grid": gname, "element": e})
+                    ck.fail("C09:partition-of-unity:%s" % kind, "basis of %s sums to 1%+.3e" % (kind, d),
+                            {"grid": gname, "element": e})
+    # -- non-manifold multi-domain grids (junction edges with three triangles): every segment subset and every support
+    #    subset that is small enough; P1 / RWG / SNC, all flag combinations
+    for gname, grid in nonmanifold_grids():
+        t = G.tables(grid)
+        n = grid.number_of_elements
+        doms = sorted(set(t["dom"]))
+        segsets = [list(c) for r in range(1, len(doms) + 1) for c in itertools.combinations(doms, r)]
+        masks = list(range(1, 2 ** n))
+        if n > 7 or not thorough:
+            masks = [masks[i] for i in sorted(rng.choice(len(masks), min(len(masks), 40 if thorough else 10), replace=False))]
+        sels = [(None, s_) for s_ in segsets] + [([i for i in range(n) if (m >> i) & 1], None) for m in masks]
+        for se, segs in sels:
+            for kind in ("P1", "RWG", "SNC"):
+                for incl, trunc in (OPTS4 if thorough else [(False, True), (True, False)]):
+                    ck.check(grid, t, gname, kind, se=se, segs=segs, incl=incl, trunc=trunc, with_tables=True)
     # -- function_space rejects support_elements together with segments
     try:
         bempp_cl.api.function_space(G.octahedron(), "P", 1, support_elements=np.array([0], dtype="uint32"), segments=[0])
-        fail("C09:both-selections-accepted", "support_elements and segments accepted together", {})
+        ck.fail("C09:both-selections-accepted", "support_elements and segments accepted together", {})
     except ValueError:
         pass
-    evals += 1
-    return {"failures": failures, "evals": evals, "worst": worst}
+    ck.evals += 1
+    return {"failures": ck.failures, "evals": ck.evals, "worst": ck.worst}
+
+
+def check_cases(cases, rng):
+    """Evaluate the property predicates on exactly the given cases (those on which model and implementation disagree,
+    or a replay): each case carries the arrays of its grid."""
+    ck = Checker(rng)
+    for c in cases:
+        ga = c["grid_arrays"]
+        grid = G.mk(ga["vertices"], ga["elements"], ga["domain_indices"])
+        t = G.tables(grid)
+        kind = c["kind"]
+        incl = c.get("incl", c.get("include_boundary_dofs"))
+        trunc = c.get("trunc", c.get("truncate_at_segment_edge"))
+        try:
+            ck.check(grid, t, c.get("grid", "case"), kind, se=c.get("se", c.get("support_elements")),
+                     segs=c.get("segs", c.get("segments")), sw=c.get("swapped", c.get("swapped_normals")) or None,
+                     incl=incl, trunc=trunc, with_tables=True)
+        except Exception as e:   # the implementation crashes on this input
+            ck.fail("C09:exception:%s:%s" % (kind, type(e).__name__), "building/evaluating the space raised %r" % (e,),
+                    {k: v for k, v in c.items()})
+    return {"failures": ck.failures, "evals": ck.evals, "worst": ck.worst}
 
 
 # ---------------------------------------------------------------------------- reference element facts
@@ -338,6 +413,8 @@ def main():
         out["reference"] = reference_dump()
     if "search" in parts:
         out["search"] = search(cfg.get("search_strength", cfg.get("strength", "quick")), rng, cfg.get("replay"))
+    if "cases" in parts:
+        out["cases"] = check_cases(cfg.get("cases", []), rng)
     print("@@JSON " + json.dumps(out))
 
 
